@@ -305,6 +305,35 @@ def make_pool(rng, hashes, size):
     return entries[:size + 12]
 
 
+GENSYM_PROG = r'''
+# gensym must never hand out a name that is already interned: equal bytes <=> identical symbol must keep holding
+(def alpha "0123456789abcdefghijklmnopqrstuvwxyzABCDEFGHIJKLMNOPQRSTUVWXYZ")
+(defn succ [name]
+  (def b (buffer name))
+  (var i (- (length b) 1))
+  (while (> i 0)
+    (def k (string/find (string/from-bytes (b i)) alpha))
+    (if (= k 61) (do (put b i (chr "0")) (-- i)) (do (put b i (alpha (+ k 1))) (break))))
+  (string b))
+(var bad 0)
+(for round 0 %d
+  (var name (string (gensym)))
+  (def live @[])
+  # intern the next names by ordinary means (symbols, keywords do not count, parsed symbols), with gaps
+  (for j 0 14
+    (set name (succ name))
+    (when (not= 0 (%% (+ j round) 3)) (array/push live (if (even? j) (symbol name) (parse name)))))
+  (def keys (table ;(mapcat (fn [s] [s true]) live)))
+  (def fresh (seq [j :range [0 8]] (gensym)))
+  (each g fresh
+    (unless (= g (symbol (string g))) (++ bad) (print "G not-self-identical " g))
+    (each l live (when (and (= (string g) (string l)) (not= g l)) (++ bad) (print "G duplicate-name " g)))
+    (when (get keys g) (++ bad) (print "G collides-with-live-key " g)))
+  (unless (= (length (distinct (map string (array/concat @[] live fresh)))) (+ (length live) (length fresh))) (++ bad) (print "G repeated-text round " round)))
+(print "GENSYM-DONE " bad)
+'''
+
+
 def run(ctx):
     exe = build.janet("plain")
     quick = ctx.tier == "quick"
@@ -447,3 +476,23 @@ def run(ctx):
             ctx.violation("reintern:" + "+".join(kinds), "%d of %d re-interned symbols/keywords differ from the live original (%s)" % (bad, checked, out[:300]), files)
 
     core.pmap(do_churn, range(nchurn))
+
+    # gensym against names that are already interned
+    d = core.case_dir()
+    gp = os.path.join(d, "gensym.janet")
+    prog = GENSYM_PROG % (40 if quick else 2000)
+    open(gp, "w").write(prog)
+    res = core.run([exe, gp], timeout=300)
+    core.discard(res)
+    ctx.evals()
+    out = res.out.decode(errors="replace")
+    files = {"gensym.janet": prog, "stdout.txt": out[-2000:]}
+    if "GENSYM-DONE" not in out:
+        if ctx.check_result(res, files, where="gensym"):
+            ctx.violation("gensym-script-failed", "rc=%s %s" % (res.rc, res.err.decode(errors="replace")[-300:]), files)
+    else:
+        ctx.count("gensym_rounds", 40 if quick else 2000)
+        n = int(out[out.index("GENSYM-DONE") + 12:].split()[0])
+        if n:
+            first = [l for l in out.splitlines() if l.startswith("G ")][:2]
+            ctx.violation("gensym-collision", "%d violations of 'equal text <=> identical symbol' around gensym: %s" % (n, first), files)
